@@ -265,6 +265,7 @@ class QuickSampler:
             self.input_state,
             self.post_select,
             self.photon_counting,
+            self.circuit.heralds,
         ]
 
     def _calculate_probabiltiies(self, outputs: list) -> dict:
